@@ -19,6 +19,30 @@ NEWTYPES = ("blockdevice::BlockCount::BlockCount", "blockdevice::BlockIdx::Block
 COMMUTATIVE_CALLS = ("core::cmp::min", "core::cmp::max", "core::cmp::Ord::min", "core::cmp::Ord::max")
 
 
+_W = {"u8": 8, "u16": 16, "u32": 32, "u64": 64, "usize": 64, "u128": 128, "i8": 8, "i16": 16, "i32": 32, "i64": 64, "isize": 64, "i128": 128, "bool": 1, "char": 32}
+
+
+def _widening(src, dst):
+    """value-preserving integer cast (no truncation, no sign change of the value).  usize is taken as at least 32 bits:
+    u32 -> usize is treated as lossless (the crate does this itself: `as usize` on block offsets), usize -> u32 is not."""
+    if src not in _W or dst not in _W or not isinstance(src, str):
+        return False
+    su, du = src[0] in "ubc", dst[0] in "ubc"
+    sw = 32 if src in ("usize", "isize") else _W[src]      # smallest width usize may have on supported targets
+    dw = 32 if dst in ("usize", "isize") else _W[dst]
+    if src in ("usize", "isize") and dst in ("usize", "isize"):
+        return su == du
+    if src in ("usize", "isize"):
+        sw = 64                                              # ... and the largest
+    if su and du:
+        return dw >= sw
+    if su and not du:
+        return dw > sw
+    if not su and not du:
+        return dw >= sw
+    return False
+
+
 def _padd(a, b, sign=1):
     out = dict(a)
     for m, c in b.items():
@@ -68,6 +92,8 @@ def _pdict(t):
                 return _padd(a, b, 1) if op == "Add" else (_padd(a, b, -1) if op == "Sub" else _pmul(a, b))
         if any(path_matches(t[1], n) for n in TRANSPARENT_CALLS) and len(t[2]) == 1:
             return _pdict(t[2][0])
+    if k == "cast" and len(t) > 3 and _widening(t[3], t[1]):
+        return _pdict(t[2])
     if k == "agg" and t[1] == "Adt" and t[2] and any(path_matches(t[2], n) or t[2].endswith(n.split("::", 1)[1]) for n in NEWTYPES) and len(t[3]) == 1:
         return _pdict(t[3][0])
     return {(key(t0),): 1}
@@ -83,7 +109,7 @@ def key(t):
     if k == "c":
         return ("c", t[1], t[2] if len(t) > 2 and not isinstance(t[1], int) else None)
     if k == "arg":
-        return ("arg", t[2] if len(t) > 2 else t[1])
+        return ("arg", t[1])
     if k == "var":
         return ("var", t[1])
     if k == "place":
@@ -107,6 +133,8 @@ def key(t):
     if k == "un":
         return ("un", t[1], nkey(t[2]))
     if k == "cast":
+        if len(t) > 3 and _widening(t[3], t[1]):
+            return nkey(t[2])
         return ("cast", t[1], nkey(t[2]))
     if k == "agg":
         return ("agg", t[1], t[2], tuple(nkey(a) for a in t[3]))
